@@ -237,16 +237,33 @@ type CallGraph struct {
 	Callees map[*ssa.Function][]*ssa.Function
 	// functions whose address is taken as a value (method values, function values) other than for an immediate call
 	AddrTaken map[*ssa.Function][]CallSite
+	bySig     map[string][]*ssa.Function
+	// call sites through function values, by signature key
+	DynSites map[string][]CallSite
+}
+
+// DynCallers returns the call sites through function values that may invoke fn (fn's address is taken and the
+// signatures are identical).
+func (g *CallGraph) DynCallers(fn *ssa.Function) []CallSite {
+	if len(g.AddrTaken[fn]) == 0 {
+		return nil
+	}
+	return g.DynSites[sigKey(fn.Signature)]
 }
 
 func BuildCallGraph(p *Prog) *CallGraph {
-	g := &CallGraph{Callers: map[*ssa.Function][]CallSite{}, Callees: map[*ssa.Function][]*ssa.Function{}, AddrTaken: map[*ssa.Function][]CallSite{}}
+	g := &CallGraph{Callers: map[*ssa.Function][]CallSite{}, Callees: map[*ssa.Function][]*ssa.Function{}, AddrTaken: map[*ssa.Function][]CallSite{}, DynSites: map[string][]CallSite{}}
 	for _, fn := range p.AllFuncs {
 		for _, b := range fn.Blocks {
 			for _, in := range b.Instrs {
 				if ci, ok := in.(ssa.CallInstruction); ok {
 					if f := StaticCallee(ci.Common()); f != nil {
 						g.addEdge(fn, in, f)
+					} else if _, isB := ci.Common().Value.(*ssa.Builtin); !isB && !ci.Common().IsInvoke() {
+						if sg, ok := ci.Common().Value.Type().Underlying().(*types.Signature); ok {
+							k := sigKey(sg)
+							g.DynSites[k] = append(g.DynSites[k], CallSite{fn, in})
+						}
 					}
 				}
 				if mc, ok := in.(*ssa.MakeClosure); ok {
@@ -281,6 +298,51 @@ func BuildCallGraph(p *Prog) *CallGraph {
 		}
 	}
 	return g
+}
+
+// DynTargets resolves a call through a function value to the address-taken module functions of identical signature.
+func (g *CallGraph) DynTargets(c *ssa.CallCommon) []*ssa.Function {
+	sig, ok := c.Value.Type().Underlying().(*types.Signature)
+	if !ok {
+		return nil
+	}
+	if g.bySig == nil {
+		g.bySig = map[string][]*ssa.Function{}
+		var fns []*ssa.Function
+		for f := range g.AddrTaken {
+			fns = append(fns, f)
+		}
+		sort.Slice(fns, func(i, j int) bool { return fns[i].String() < fns[j].String() })
+		for _, f := range fns {
+			k := sigKey(f.Signature)
+			g.bySig[k] = append(g.bySig[k], f)
+		}
+	}
+	return g.bySig[sigKey(sig)]
+}
+
+// sigKey renders a signature without receiver and without parameter names.
+func sigKey(s *types.Signature) string {
+	var b strings.Builder
+	b.WriteString("(")
+	for i := 0; i < s.Params().Len(); i++ {
+		if i > 0 {
+			b.WriteString(",")
+		}
+		b.WriteString(s.Params().At(i).Type().String())
+	}
+	if s.Variadic() {
+		b.WriteString("...")
+	}
+	b.WriteString(")(")
+	for i := 0; i < s.Results().Len(); i++ {
+		if i > 0 {
+			b.WriteString(",")
+		}
+		b.WriteString(s.Results().At(i).Type().String())
+	}
+	b.WriteString(")")
+	return b.String()
 }
 
 func (g *CallGraph) addEdge(from *ssa.Function, in ssa.Instruction, to *ssa.Function) {
@@ -335,6 +397,22 @@ func (p *Prog) Reachable(g *CallGraph, roots []*ssa.Function, viaIface func(c *s
 		}
 		for _, c := range g.Callees[f] {
 			push(c)
+		}
+		// calls through function values: every module function whose address is taken somewhere and whose
+		// signature is identical may be the callee (class-hierarchy style resolution for func types)
+		for _, b := range f.Blocks {
+			for _, in := range b.Instrs {
+				ci, ok := in.(ssa.CallInstruction)
+				if !ok || ci.Common().IsInvoke() || StaticCallee(ci.Common()) != nil {
+					continue
+				}
+				if _, isB := ci.Common().Value.(*ssa.Builtin); isB {
+					continue
+				}
+				for _, t := range g.DynTargets(ci.Common()) {
+					push(t)
+				}
+			}
 		}
 		if viaIface != nil {
 			for _, b := range f.Blocks {
